@@ -2,6 +2,7 @@
   Kernel tie: `OrderBookParticipation.TrimCurrentRoundLiquidity` = the first step of the model's `requeue`.
 -/
 import Sge.Gen.Kernels
+import SgeProofs.Lemmas.KernelsTie
 import Sge.Core.Orderbook
 namespace Sge.KernelsTie
 open Sge Sge.Core Sge.Gen.Kernels
@@ -11,8 +12,7 @@ theorem krn_tie_TrimLiquidity (p : Part) :
     orderbook_OrderBookParticipation_TrimCurrentRoundLiquidity p.crl p.crMaxLoss = p.crl - maxI 0 p.crMaxLoss := by
   first
     | rfl
-    | (unfold orderbook_OrderBookParticipation_TrimCurrentRoundLiquidity maxI
-       (repeat' split) <;> omega)
+    | (unfold orderbook_OrderBookParticipation_TrimCurrentRoundLiquidity; krn_close)
 
 example : orderbook_OrderBookParticipation_TrimCurrentRoundLiquidity 100 30 = 70 ∧
     orderbook_OrderBookParticipation_TrimCurrentRoundLiquidity 100 (-30) = 100 := by decide +kernel
